@@ -22,7 +22,7 @@ type ChildParams struct {
 // NewChild create new instance of child scope
 func NewChild(parent app.Scope, params ChildParams) app.Scope {
 	var sid string
-	parent.AddTasks(1)
+	parentTask := parent.AddTasks(1) == nil
 	if params.ContextScope == nil {
 		params.ContextScope = parent.BaseContextScope()
 	}
@@ -45,6 +45,7 @@ func NewChild(parent app.Scope, params ChildParams) app.Scope {
 	}
 	return &Scope{
 		parent:       parent,
+		parentTask:   parentTask,
 		sid:          sid,
 		cid:          params.CID,
 		ContextScope: params.ContextScope,
